@@ -38,7 +38,7 @@ Print Assumptions C19_upload_contained.
 (* "an uploaded file appears under its final name only when complete": after ANY prefix of the operations (crash at
    any point, any pre-existing entries incl. symlinks at the final or the temporary name) the final name shows its
    old entry or the complete file; no operation went through a symlink; no other entry changed *)
-Theorem C19_atomic_publish : forall s0 final blocks k,
+Theorem C19_atomic_publish : forall s0 final blocks k, no_dir_at s0 final ->
   wf_st s0 -> unshared s0 (final ++ putfile_tmp_ext) -> clean s0 -> no_dir_at s0 (final ++ putfile_tmp_ext) ->
   let s := run s0 (firstn k (upload_ops final blocks Done)) in
   (look s final = look s0 final \/ look s final = VFile (concat blocks)) /\
@@ -58,12 +58,23 @@ Proof. exact exists_guard_insufficient. Qed.
 Print Assumptions C19_exists_guard_refuted.
 
 (* ... and a run that is not interrupted does publish the complete file and leaves no temporary *)
-Theorem C19_upload_completes : forall s0 final blocks,
+Theorem C19_upload_completes : forall s0 final blocks, no_dir_at s0 final ->
   wf_st s0 -> unshared s0 (final ++ putfile_tmp_ext) -> clean s0 -> no_dir_at s0 (final ++ putfile_tmp_ext) ->
   let s := run s0 (upload_ops final blocks Done) in
   look s final = VFile (concat blocks) /\ names s (final ++ putfile_tmp_ext) = None /\ failed s = false.
 Proof. exact upload_completes. Qed.
 Print Assumptions C19_upload_completes.
+
+(* the upload arrived completely but cannot be published (the final name is an existing directory, rename(2) fails):
+   after any prefix nothing but the temporary differs from the initial state -- in particular no file appears under the
+   final name --, no symlink is followed, and once the failure path has run the temporary is gone and the call fails *)
+Theorem C19_publish_failure : forall s0 final blocks k, names s0 final = Some D ->
+  wf_st s0 -> unshared s0 (final ++ putfile_tmp_ext) -> clean s0 -> no_dir_at s0 (final ++ putfile_tmp_ext) ->
+  let s := run s0 (firstn k (upload_ops final blocks Done)) in
+  (forall q, q <> final ++ putfile_tmp_ext -> look s q = look s0 q) /\ followed s = false /\
+  ((List.length (upload_ops final blocks Done) <= k)%nat -> names s (final ++ putfile_tmp_ext) = None /\ failed s = true).
+Proof. exact upload_publish_failure. Qed.
+Print Assumptions C19_publish_failure.
 
 (* "an interrupted upload leaves neither a partial file under the final name nor a leftover temporary": source
    error, disconnect, or a block that cannot be written (oc = SrcError | BadBlock) after any number of blocks, and a
@@ -93,7 +104,7 @@ Print Assumptions C19_publisher_contained.
 Theorem C19_registry_atomic : forall s0 basedir chunks k,
   let final := registry_final basedir in
   let tmp := final ++ registry_tmp_ext in
-  wf_st s0 -> unshared s0 tmp -> clean s0 -> no_link_at s0 tmp -> no_dir_at s0 tmp ->
+  wf_st s0 -> unshared s0 tmp -> clean s0 -> no_link_at s0 tmp -> no_dir_at s0 tmp -> no_dir_at s0 final ->
   let s := run s0 (firstn k (registry_ops basedir chunks)) in
   (look s final = look s0 final \/ look s final = VFile (concat chunks)) /\ failed s = false /\
   (forall q, q <> tmp -> q <> final -> look s q = look s0 q) /\
